@@ -9,7 +9,7 @@ from __future__ import annotations
 import random
 
 from hv import core
-from hv.engine_harness import Harness, program_lines
+from hv.engine_harness import Harness, make_stateless, program_lines
 
 TICK = 9
 SCALES = {
@@ -59,8 +59,12 @@ def gen_program(rng: random.Random, futures=False, crash=True):
                             # an event stamped before the current instant (the engine must discard it)
                             acts.append(["EP", rng.randrange(ents), rng.randint(k + 1, nk), rng.choice([1, 1, 1000, 10**9]),
                                          rng.random() < 0.15])
-                        elif r < 0.9:
+                        elif r < 0.87:
                             acts.append(["X", rng.randint(1, nk)])
+                        elif r < 0.9:
+                            # a completion hook added to whatever event of that kind was created last: not yet
+                            # delivered, being processed right now (its own handler / a process in flight), or done
+                            acts.append(["AH", rng.randint(1, nk), rng.choice([5, 6])])
                         elif crash and r < 0.95:
                             acts.append(["C", rng.randrange(ents)])
                         elif crash:
@@ -69,6 +73,8 @@ def gen_program(rng: random.Random, futures=False, crash=True):
                     segs.append({"acts": acts, "term": term})
                 prog["defs"].append({"ent": e, "kind": k, "gen": gen, "segs": segs, "reuse_list": gen and rng.random() < 0.4})
     prog["end"] = None if rng.random() < 0.35 else rng.choice(sc["ends"])
+    if crash and rng.random() < 0.3:
+        crash_window(rng, prog, sc, nk)
     if rng.random() < 0.3 and prog["defs"]:
         # held events: created before the run, released by a handler mid-run for an instant far in the
         # future; a later-created event for the same instant must come after them
@@ -89,11 +95,58 @@ def gen_program(rng: random.Random, futures=False, crash=True):
     return prog
 
 
+def crash_window(rng, prog, sc, nk):
+    """a down window of one entity with traffic for it scheduled before / inside / after the window and falling
+    due inside / exactly at the restore instant / after it.  Whether an event is delivered depends on the
+    target's state when the event falls due, not when it was scheduled."""
+    ents = prog["ents"]
+    grid = sorted(set(sc["times"]))
+    grid += [grid[-1] + (grid[-1] - grid[-2]), 2 * grid[-1]]
+    i1 = rng.randrange(0, len(grid) - 3)
+    i3 = rng.randrange(i1 + 1, len(grid) - 1)
+    t1, t3 = grid[i1], grid[i3]                 # crash at t1, restore at t3
+    x = rng.randrange(ents)
+    who = lambda: rng.randrange(ents)
+    after = [t for t in grid if t >= t3]
+    inside = [t for t in grid if t1 <= t <= t3]
+    crasher = who() if rng.random() < 0.7 else x          # (an entity may crash itself)
+    prog["defs"].append({"ent": crasher, "kind": 50, "gen": False, "segs": [{"acts": [["C", x]], "term": ["Z"]}]})
+    prog["pre"].append({"tgt": crasher, "kind": 50, "time": t1, "daemon": False, "hook": 0, "cancelled": False})
+    restorer = rng.choice([e for e in range(ents) if e != x] or [x])
+    if restorer != x:
+        prog["defs"].append({"ent": restorer, "kind": 52, "gen": False, "segs": [{"acts": [["U", x]], "term": ["Z"]}]})
+        prog["pre"].append({"tgt": restorer, "kind": 52, "time": t3, "daemon": False, "hook": 0, "cancelled": False})
+    # senders: handlers that run at some instant (before / inside / after the window) and schedule events for x
+    for _ in range(rng.randint(1, 3)):
+        ts = rng.choice(inside + inside + grid)
+        snd = rng.choice([e for e in range(ents) if e != x] or [x])
+        acts = []
+        for _ in range(rng.randint(1, 3)):
+            due = rng.choice(after + after + inside)
+            if due >= ts:
+                acts.append(["E", x, rng.randint(1, nk), due - ts, rng.random() < 0.15, rng.choice([0, 0, 0, 3])])
+        gen = rng.random() < 0.4
+        segs = [{"acts": acts, "term": ["Z"]}]
+        if gen:
+            segs = [{"acts": [], "term": ["Y", rng.choice(sc["fd"])]}] + segs
+        k = 53 + len([d for d in prog["defs"] if 53 <= d["kind"] < 60])
+        prog["defs"].append({"ent": snd, "kind": k, "gen": gen, "segs": segs})
+        prog["pre"].append({"tgt": snd, "kind": k, "time": ts, "daemon": False, "hook": 0, "cancelled": False})
+    # pre-scheduled traffic for x around the window, and something after it so the run goes on
+    for t in rng.sample(grid, min(len(grid), rng.randint(1, 3))):
+        prog["pre"].append({"tgt": x, "kind": rng.randint(1, nk), "time": t, "daemon": False, "hook": 0, "cancelled": False})
+    prog["pre"].append({"tgt": who(), "kind": rng.randint(1, nk), "time": grid[-1], "daemon": False, "hook": 0, "cancelled": False})
+    rng.shuffle(prog["pre"])
+    if prog["end"] is not None and prog["end"] < grid[-1]:
+        prog["end"] = grid[-1] + 1
+    prog["window"] = True
+
+
 class C01(core.Property):
     id = "C01"
     driver = "drv-c01"
-    lake_targets = ["HappyProofs.C01.Props", "drv-c01"]
-    audit_imports = ["HappyProofs.C01.Props"]
+    lake_targets = ["HappyProofs.C01.Props", "HappyProofs.C01.Crash", "drv-c01"]
+    audit_imports = ["HappyProofs.C01.Props", "HappyProofs.C01.Crash"]
     lean_files = ["HappyModel/C01/*.lean", "HappyProofs/C01/*.lean", "HappyModel/Proto.lean", "Driver/C01.lean"]
     variants = ["current", "contgate"]
     theorems = [
@@ -109,6 +162,9 @@ class C01(core.Property):
         "HappyModel.C01.halt_no_live_pending",
         "HappyModel.C01.autoterm_iff_no_primary_in_heap",
         "HappyModel.C01.autoterm_cancelled_primary_keeps_alive",
+        "HappyModel.C01.scheduled_whatever_the_target_state",
+        "HappyModel.C01.up_target_gets_event",
+        "HappyModel.C01.down_target_drops_event",
     ]
     quick_cases = 1200
     thorough_cases = 30000
@@ -116,8 +172,12 @@ class C01(core.Property):
     rule = ("programs: 1–4 scripted entities, ≤6 event kinds forming a DAG (+ a self-rearming daemon tick), ≤11 pre-run "
             "events on a small time grid with deliberate same-nanosecond clusters, daemon / pre-cancelled events, handlers that "
             "are plain functions or generators (≤3 segments, float delays incl. 0, 1e-9, 3e-10), emits with delay 0/1 ns/…, "
-            "cancels, crash/restore of entities, completion hooks; end_time none / on a tie value / between events; fast loop or "
-            "instrumented loop (control attached). Non-trivial = at least two deliveries share a timestamp or an event is "
+            "cancels, crash/restore of entities, completion hooks (attached at creation or added later to an event that is pending, "
+            "being processed or done); crash-window programs (one entity down from t1 to t3, events for it scheduled before / inside / "
+            "after the window and falling due inside it, at the restore instant or after it: an event is exempt from delivery only if "
+            "its target is down in the stretch of the trace in which it falls due); end_time none / on a tie value / between events; fast loop or "
+            "instrumented loop (control attached); a tenth of the programs (stateless ones) are run, reset() and run again, the second "
+            "run being the one compared and judged. Non-trivial = at least two deliveries share a timestamp or an event is "
             "cancelled/stale/gated; distinct = distinct (program, log)")
     trusted_base = [
         "hv/engine_harness.py scripted entities and trace recorder; tags = harness creation counter",
@@ -126,7 +186,8 @@ class C01(core.Property):
     ]
     assumptions = [
         "handlers are arbitrary in the theorems; the correspondence exercises the script language of hv/engine_harness.py",
-        "a delivery to a crashed entity counts as processed but is not a delivery (Event.invoke returns [])",
+        "a delivery to a crashed entity counts as processed but is not a delivery (Event.invoke returns []); 'target not crashed' "
+        "is judged at the moment the event falls due (an event scheduled for a crashed entity that is restored in time is live)",
         "events emitted by a generator are passed to the engine at the next yield/return of the same segment (no emit in a segment that ends by waiting on a future)",
     ]
     hypotheses = ["FreshIdx (in-run creation indices exceed all pre-run ones) is established by `init` and by /repo commit 03b7a76"]
@@ -135,7 +196,14 @@ class C01(core.Property):
 
     def generate(self, rng, i, tier):
         prog = gen_program(rng, futures=self.futures)
-        prog["family"] = "program/" + ("auto" if prog["end"] is None else "end") + "/" + prog["loop"]
+        if type(self) is C01 and not prog.get("window") and rng.random() < 0.1:
+            # the run is repeated after control.reset(): the second run starts from clock 0 with the replayed
+            # pre-run schedule and must be the same run again (entities without state)
+            make_stateless(prog)
+            prog["rerun"] = True
+            prog["family"] = "rerun/" + ("auto" if prog["end"] is None else "end") + "/" + prog["loop"]
+            return prog
+        prog["family"] = ("crashwin/" if prog.get("window") else "program/") + ("auto" if prog["end"] is None else "end") + "/" + prog["loop"]
         return prog
 
     def run_impl(self, case):
@@ -144,6 +212,8 @@ class C01(core.Property):
         if case.get("loop") == "slow":
             _ = sim.control  # attaching the control surface selects the instrumented loop
         out = h.run()
+        if case.get("rerun"):
+            out = h.rerun()
         self._last_trace = h.trace
         return out + ["#trace"] + h.trace
 
